@@ -10,13 +10,15 @@ ROOT="${SELFROOT:-/tmp/selftest}"
 export GOFLAGS=-mod=mod GOPROXY=off GOSUMDB=off GOTOOLCHAIN=local
 cd /verif || exit 2
 mkdir -p selftest "$ROOT"
-OUT=selftest/RESULT.txt
+OUT=${SELF_OUT:-selftest/RESULT.txt}
 HEAD=$(git -C /repo rev-parse --short HEAD)
 # work list
 : > "$ROOT/jobs"
 for ID in C01 C02 C03 C04 C05 C06 C07 C08 C09 C10 C11 C12 C13 C14 C15 C16 C17 C18 C19 C20; do echo "clean $ID $ID" >> "$ROOT/jobs"; done
 for d in seeded/C*/; do N=$(basename $d); echo "seed $N ${N%-*}" >> "$ROOT/jobs"; done
 for d in mutants/revert-*/; do N=$(basename $d); echo "mutant $N $(echo $N | cut -d- -f2)" >> "$ROOT/jobs"; done
+# SELF_IDS="C01 C11": only the jobs of these properties (used to refresh part of the result file)
+if [ -n "$SELF_IDS" ]; then awk -v ids=" $SELF_IDS " 'index(ids, " "$3" ")' "$ROOT/jobs" > "$ROOT/jobs.f"; mv "$ROOT/jobs.f" "$ROOT/jobs"; fi
 lane() {
   L=$1; WT="$ROOT/wt$L"; VD="$ROOT/verif$L"
   git -C /repo worktree add --detach "$WT" HEAD >/dev/null 2>&1
